@@ -28,7 +28,10 @@ def statement(file, lemma):
     stmt = stmt.rstrip()
     if stmt.endswith("."):
         stmt = stmt[:-1]
-    return ("forall %s,\n  " % binders if binders else "") + stmt
+    res = ("forall %s,\n  " % binders if binders else "") + stmt
+    if spec.get("list_length"):  # String is imported: `length` would resolve to String.length
+        res = re.sub(r"(?<![\w.])length\b", "List.length", res)
+    return res
 
 out = ["(* %s *)" % spec["header"].replace("*)", "* )"), spec["imports"], "Import ListNotations.", "Local Open Scope Z_scope.", ""]
 for it in spec["items"]:
